@@ -404,4 +404,8 @@ def run(ctx):
         else:
             res.unknown("D-STEP", f, "nodes.append(next_node)", "append-drawn", "the statement that extends the walk was not recognised", loc(v.fi, ch[0]))
     res.assumptions += ["transition_matrix / random walks index by label (one-symbol exemption: the property restricts them to nodes 0..N-1)", "numeric stochasticity / stationarity are not decided"]
+    with res.guard("general lint pack over the property's files"):
+        from ..lints import check_pack
+
+        check_pack(ctx, res, "C18")
     return res
